@@ -1022,6 +1022,11 @@ var CapturedOutput *bytes.Buffer
 // callBuiltin interprets a call to builtin fn with arguments args,
 // returning its result.
 func (i *interpreter) callBuiltin(caller *frame, callpos token.Pos, fn *ssa.Builtin, args []value) value {
+	for k, a := range args {
+		if nt, ok := a.(numtext); ok {
+			args[k] = nt.expand()
+		}
+	}
 	switch fn.Name() {
 	case "append":
 		if len(args) == 1 {
